@@ -682,8 +682,8 @@ func genHeaders(rng *rand.Rand, q *reqT, hostOfService string, noClose bool) {
 	case "only-client-ip":
 		addForged("X-Connecting-IP")
 	}
-	for h := range mustForge {
-		if len(q.Forged[http.CanonicalHeaderKey(h)]) == 0 {
+	for _, h := range listedFwd { // fixed order: the case must be a function of the seed
+		if mustForge[h] && len(q.Forged[http.CanonicalHeaderKey(h)]) == 0 {
 			addForged(h)
 		}
 	}
